@@ -972,6 +972,13 @@ func newSessionHub() *SessionHub {
 // set sets a *session.
 func (sh *SessionHub) set(sess *session) {
 	sh.mu.Lock()
+	switch sess.getStatus() {
+	case statusActiveClosing, statusActiveClosed, statusPassiveClosing, statusPassiveClosed, statusRedialFailed:
+		// the session has ended (or is ending) and has been removed from the hub:
+		// do not list it again
+		sh.mu.Unlock()
+		return
+	}
 	_sess, loaded := sh.sessions.LoadOrStore(sess.ID(), sess)
 	if !loaded {
 		sh.mu.Unlock()
